@@ -10,6 +10,8 @@ import GSV.RealInst
 import Mathlib.Analysis.SpecialFunctions.Trigonometric.Basic
 import Mathlib.Algebra.BigOperators.Field
 import Mathlib.Algebra.BigOperators.Ring.Finset
+import Mathlib.Tactic.IntervalCases
+import Mathlib.Tactic.Linarith
 namespace GSV.Fourier
 open GSV GSV.Props GSV.Model.Fourier Finset
 
@@ -56,7 +58,7 @@ theorem modeLen_half (m : Nat) : modeLen m / 2 = m / 2 := by
 theorem even_modeLen (m : Nat) : Even (modeLen m) := ⟨m / 2, by unfold modeLen; omega⟩
 
 /-- asking again for the measured number of modes reproduces the same 1-D modes -/
-theorem mode1d_modeLen (m : Nat) (dk : ℝ) (n : Nat) : mode1d (modeLen m) dk n = mode1d m dk n := by
+theorem mode1d_modeLen {α : Type} [Arith α] (m : Nat) (dk : α) (n : Nat) : mode1d (modeLen m) dk n = mode1d m dk n := by
   unfold mode1d; rw [modeLen_half]
 
 theorem gridIdx_lt (lens : Nat → Nat) (dim d j : Nat) (h : 0 < lens d) : gridIdx lens dim d j < lens d := by
@@ -124,28 +126,96 @@ theorem isometrize_shift (Q : Nat → Nat → ℝ) (anis : Nat → ℝ) (dim : N
   refine sum_congr rfl fun e he => ?_
   rw [hx e (mem_range.mp he)]; ring
 
-/-! ### `Fourier.update` as a state machine: coherence of the derived grid -/
+/-! ### the derotation matrices have orthonormal rows -/
+
+/-- rows `d < n` of `Q` are orthonormal (`Q Qᵀ = I`) -/
+def RowsON (n : Nat) (Q : Nat → Nat → ℝ) : Prop :=
+  ∀ d < n, ∀ d' < n, ∑ e ∈ range n, Q d e * Q d' e = if d = d' then 1 else 0
+
+theorem mulM_real (n : Nat) (A B : Nat → Nat → ℝ) (d e : Nat) :
+    mulM n A B d e = ∑ f ∈ range n, A d f * B f e := by
+  unfold mulM; exact forRange_cast_zero_add_eq_sum n _
+
+theorem rowsON_mul (n : Nat) (A B : Nat → Nat → ℝ) (hA : RowsON n A) (hB : RowsON n B) : RowsON n (mulM n A B) := by
+  intro d hd d' hd'
+  simp only [mulM_real]
+  calc ∑ e ∈ range n, (∑ f ∈ range n, A d f * B f e) * (∑ f' ∈ range n, A d' f' * B f' e)
+      = ∑ f ∈ range n, ∑ f' ∈ range n, A d f * A d' f' * ∑ e ∈ range n, B f e * B f' e := by
+        have h : ∀ e, (∑ f ∈ range n, A d f * B f e) * (∑ f' ∈ range n, A d' f' * B f' e) =
+            ∑ f ∈ range n, ∑ f' ∈ range n, A d f * A d' f' * (B f e * B f' e) := by
+          intro e
+          rw [sum_mul_sum]
+          exact sum_congr rfl fun f _ => sum_congr rfl fun f' _ => by ring
+        simp only [h]
+        rw [sum_comm]
+        refine sum_congr rfl fun f _ => ?_
+        rw [sum_comm]
+        refine sum_congr rfl fun f' _ => ?_
+        rw [mul_sum]
+    _ = ∑ f ∈ range n, A d f * A d' f := by
+        refine sum_congr rfl fun f hf => ?_
+        rw [sum_eq_single f]
+        · rw [hB f (mem_range.mp hf) f (mem_range.mp hf)]; simp
+        · intro f' hf' hne
+          rw [hB f (mem_range.mp hf) f' (mem_range.mp hf'), if_neg (Ne.symm hne)]; simp
+        · intro h; exact absurd hf h
+    _ = _ := hA d hd d' hd'
+
+theorem rowsON_givens3 (p q : Nat) (hpq : p < q) (hq : q < 3) (a : ℝ) : RowsON 3 (givens p q a) := by
+  intro d hd d' hd'
+  have hs := Real.sin_sq_add_cos_sq a
+  interval_cases q <;> interval_cases p <;> interval_cases d <;> interval_cases d' <;>
+    simp [givens, sum_range_succ] <;> nlinarith [hs]
+
+theorem rowsON_givens2 (a : ℝ) : RowsON 2 (givens 0 1 a) := by
+  intro d hd d' hd'
+  have hs := Real.sin_sq_add_cos_sq a
+  interval_cases d <;> interval_cases d' <;> simp [givens, sum_range_succ] <;> nlinarith [hs]
+
+theorem rowsON_id (n : Nat) : RowsON n (fun d e => if d = e then (1:ℝ) else 0) := by
+  intro d hd d' hd'
+  simp only [mul_ite, mul_one, mul_zero]
+  rw [sum_ite_eq (range n) d' fun e => if d = e then (1:ℝ) else 0]
+  simp [hd']
+
+/-- `matrix_derotate(dim, angles)` has orthonormal rows (`dim ≤ 3`, every angle) -/
+theorem rowsON_derot (dim : Nat) (hdim : dim ≤ 3) (angles : Nat → ℝ) : RowsON dim (derot dim angles) := by
+  unfold derot
+  split
+  · rename_i h; subst h; exact rowsON_givens2 _
+  · split
+    · rename_i h; subst h
+      exact rowsON_mul 3 _ _ (rowsON_mul 3 _ _ (rowsON_givens3 0 1 (by norm_num) (by norm_num) _)
+        (rowsON_givens3 0 2 (by norm_num) (by norm_num) _)) (rowsON_givens3 1 2 (by norm_num) (by norm_num) _)
+    · simpa using rowsON_id dim
+
+/-! ### `Fourier.update` as a state machine: coherence of the derived grid
+   (law-free: stated for an arbitrary carrier, so the invariants also hold on doubles, bit for bit) -/
+
+section machine
+set_option linter.unusedSectionVars false
+variable {α : Type} [Arith α] [Transc α] [DecidableLT α] [DecidableLE α]
 
 /-- the code's model comparison is exact on the anisotropy ratios (it is NOT: `compare` uses `np.isclose`) -/
-def EqvExact (eqv : Mdl ℝ → Mdl ℝ → Bool) : Prop := ∀ a b, eqv a b = true → ∀ d, a.anis d = b.anis d
+def EqvExact (eqv : Mdl α → Mdl α → Bool) : Prop := ∀ a b, eqv a b = true → ∀ d, a.anis d = b.anis d
 
 /-- the grid of a state is the one derived from its period, the anisotropy `anis` and its mode counts -/
-structure GridOK (st : St ℝ) (anis : Nat → ℝ) : Prop where
+structure GridOK (st : St α) (anis : Nat → α) : Prop where
   dk : ∀ d, st.deltaK d = deltaK st.period anis d
   modes : ∀ d n, st.modes1d d n = mode1d (st.modeNo d) (st.deltaK d) n
   even : ∀ d, modeLen (st.modeNo d) = st.modeNo d
 
-structure Coherent (st : St ℝ) : Prop where
+structure Coherent (st : St α) : Prop where
   grid : GridOK st st.model.anis
   fresh : st.fresh = true
   zlen : st.zLen = gridN st.modeNo st.model.dim
   hasModel : st.hasModel = true
 
-def Inv (st : St ℝ) : Prop := st.hasPeriod = true → Coherent st
+def Inv (st : St α) : Prop := st.hasPeriod = true → Coherent st
 
 theorem modeLen_modeLen (m : Nat) : modeLen (modeLen m) = modeLen m := by unfold modeLen; omega
 
-theorem setModes_modes (st : St ℝ) (mreq : Nat → Nat) :
+theorem setModes_modes (st : St α) (mreq : Nat → Nat) :
     (∀ d n, (setModes st mreq).modes1d d n = mode1d ((setModes st mreq).modeNo d) ((setModes st mreq).deltaK d) n) ∧
     (∀ d, modeLen ((setModes st mreq).modeNo d) = (setModes st mreq).modeNo d) ∧
     (setModes st mreq).deltaK = st.deltaK ∧ (setModes st mreq).period = st.period ∧
@@ -156,23 +226,24 @@ theorem setModes_modes (st : St ℝ) (mreq : Nat → Nat) :
     rw [mode1d_modeLen]
   · exact modeLen_modeLen _
 
-theorem resetSeed_coherent (st : St ℝ) (seed : Option Nat) (hg : GridOK st st.model.anis) (hm : st.hasModel = true) :
+theorem resetSeed_coherent (st : St α) (seed : Option Nat) (hg : GridOK st st.model.anis) (hm : st.hasModel = true) :
     Coherent (resetSeed st seed) :=
   ⟨⟨hg.dk, hg.modes, hg.even⟩, rfl, rfl, hm⟩
 
-theorem setSeed_coherent (st : St ℝ) (s : Nat) (h : Coherent st) : Coherent (setSeed st s) := by
+theorem setSeed_coherent (st : St α) (s : Nat) (h : Coherent st) : Coherent (setSeed st s) := by
   unfold setSeed
   split
   · exact resetSeed_coherent st _ h.grid h.hasModel
   · exact h
 
-theorem gridOK_setModes (st : St ℝ) (mreq : Nat → Nat) (anis : Nat → ℝ)
+theorem gridOK_setModes (st : St α) (mreq : Nat → Nat) (anis : Nat → α)
     (hdk : ∀ d, st.deltaK d = deltaK st.period anis d) : GridOK (setModes st mreq) anis :=
   ⟨hdk, (setModes_modes st mreq).1, (setModes_modes st mreq).2.1⟩
 
-theorem resetSeed_model_coherent (st : St ℝ) (m : Mdl ℝ) (seed : Option Nat) (hg : GridOK st m.anis) :
+theorem resetSeed_model_coherent (st : St α) (m : Mdl α) (seed : Option Nat) (hg : GridOK st m.anis) :
     Coherent (resetSeed { st with model := m, hasModel := true } seed) :=
   ⟨⟨hg.dk, hg.modes, hg.even⟩, rfl, rfl, rfl⟩
 
+end machine
 
 end GSV.Fourier
